@@ -94,7 +94,12 @@ func genSchedSpec(p *schedParams, c *Corpus, run int, cold bool) *RunSpec {
 			// whatever that family's code initialises lazily at package level is first used, in
 			// this process, by several workers at once
 			var hf string
-			docs, hf = genHerd(rh, c, n+rh.Intn(3))
+			if rh.Split("gate-herd").Chance(1, 2) {
+				// ... and from behind ONE gate of that family's generator
+				docs, hf = genGateHerd(rh, n+rh.Intn(3))
+			} else {
+				docs, hf = genHerd(rh, c, n+rh.Intn(3))
+			}
 			spec.Cfg = biasConfig(rh, spec.Cfg, hf)
 			fam = "herd"
 		}
